@@ -8,7 +8,7 @@ import json
 from ..common import coq_eval, harness
 
 HEADER = ("From Coq Require Import List NArith ZArith Bool.\n"
-          "From PV Require Import Lib.ListX Model.Checked Model.RangeArith Model.SelectClauses Model.SelectPluck Model.SplitBase.\n"
+          "From PV Require Import Lib.ListX Model.Checked Model.RangeArith Model.SelectClauses Model.SelectPluck Model.SplitBase Model.Sorts.\n"
           "Import ListNotations.\n")
 KINDS = {"From": "QFrom", "Join": "QJoin", "Select": "QSelect", "Distinct": "QDistinct", "Union": "QUnion"}
 KIND_SPLIT = {"From": "KFrom", "Join": "KJoin", "Filter": "KFilter", "Aggregate": "KAggregate", "Sort": "KSort", "Take": "KTake", "Distinct": "KDistinct",
@@ -45,7 +45,7 @@ def coq_pipeline(pl):
         if k == "Filter":
             items.append("QFilter %d%%nat" % i)
         elif k == "Sort":
-            items.append("QSort (%d%%nat, %d%%nat, %d%%nat)" % (i, len(t["keys"]), KEYS.setdefault(json.dumps(t["keys"]), len(KEYS))))
+            items.append("QSort (%d%%nat, %d%%nat, [%s])" % (i, len(t["keys"]), "; ".join("(%d%%nat, %s)" % (c, "true" if dr == "Desc" else "false") for c, dr in t["keys"])))
         elif k == "Aggregate":
             items.append("QAggregate %d%%nat" % i)
         elif k == "Take":
@@ -67,10 +67,25 @@ def pluck_stream(ck, srcs, targets=("sql.sqlite", "sql.generic", "sql.mssql")):
         return I.setdefault(t, len(I) + 1)
     exprs, meta = [], []
     seen_hook, ok_compiles = False, 0
-    T = "nat (nat * nat * nat) nat erange nat"      # a sort = (position, number of keys, class of equal key lists)
-    SAME = "(fun a b : nat * nat * nat => Nat.eqb (snd a) (snd b))"
+    T = "nat (nat * nat * list (nat * bool)) nat erange nat"      # a sort = (position, number of keys, keys as (column id, desc))
     for rq, a in zip(reqs, ans):
         done, open_ = calls_of(a.get("entries", []))
+        # the context sort inference left behind (hook verif:infer_sorts, exit): which column is a copy of which -- a redirect
+        # (the same column behind a sub-query boundary) or a Compute that is a bare column reference.  `same` of drop_resorts
+        # compares sort keys up to that (Model/Sorts.v canon_key)
+        decls, rdsx = "[]", "[]"
+        for e in a.get("entries", []):
+            m = e.get("Message") or ""
+            if m.startswith("verif:infer_sorts "):
+                dd_ = json.loads(m[18:])
+                if dd_.get("phase") == "exit":
+                    decls = "[%s]" % "; ".join(
+                        "(%d%%nat, %s)" % (dc["cid"], ("DRel %d%%nat %d%%nat" % (dc["riid"], dc["col"])) if "riid" in dc else
+                                           ("DCompute %s" % ("None" if dc.get("column_ref") is None else "(Some %d%%nat)" % dc["column_ref"])))
+                        for dc in sorted(dd_["ctx"]["column_decls"], key=lambda x: x["cid"]))
+                    rdsx = "[%s]" % "; ".join("(%d%%nat, [%s])" % (i_["riid"], "; ".join("(%d%%nat, %d%%nat)" % (s_, t_) for s_, t_ in i_["redirects"]))
+                                              for i_ in dd_["ctx"]["relation_instances"])
+        SAME = ("(fun a b : nat * nat * list (nat * bool) => skey_eqb (canon_key 40 %s %s (snd a)) (canon_key 40 %s %s (snd b)))" % (decls, rdsx, decls, rdsx))
         if "ok" in a:
             ok_compiles += 1
             if open_:
